@@ -246,7 +246,13 @@ func (client *Crypto) New(ctx context.Context, namingFunc KIDNamingFunc) (*orm.K
 			Version: version,
 		}
 		audit.Log(ctx, log.Logger(), audit.CryptoNewKeyEvent).Infof("Generated new key pair: %s", kid)
-		return tx.Save(ref).Error
+		// Create (INSERT), not Save (upsert): an existing kid must keep addressing the key pair it was published with.
+		if err = tx.Create(ref).Error; err != nil {
+			// don't leave the unreferenced private key behind
+			_ = client.backend.DeletePrivateKey(ctx, keyName)
+			return fmt.Errorf("could not store key reference (kid=%s): %w", kid, err)
+		}
+		return nil
 	})
 	return ref, publicKey, err
 }
